@@ -171,11 +171,15 @@ impl Sut {
             }
             _ => on_aut!(self, a => {
                 if via_ref() {
+                    // (`r` is declared before the iterator so that it outlives it even
+                    // if the library gives its stream iterator a Drop impl)
                     let r = &a;
-                    match Automaton::try_stream_find_iter(&r, rdr) {
+                    let res = Automaton::try_stream_find_iter(&r, rdr);
+                    let out = match res {
                         Err(e) => Err(e.to_string()),
                         Ok(it) => drive!(it),
-                    }
+                    };
+                    out
                 } else {
                     match a.try_stream_find_iter(rdr) {
                         Err(e) => Err(e.to_string()),
